@@ -374,6 +374,8 @@ def dict_method(I_, ref, o, name, args, kws, st, ctx, k, node):
     return k(st, IterVal([kv[0] for kv in data.values()]))
   if name == "values":
     return k(st, IterVal([kv[1] for kv in data.values()]))
+  if name in ("setdefault", "pop") and args and isinstance(args[0], Union):
+    return I_.split(args[0], st, lambda st2, kk: dict_method(I_, ref, st2.obj(ref), name, [kk] + list(args[1:]), kws, st2, ctx, k, node))
   if name == "setdefault":
     key = args[0]
     default = args[1] if len(args) > 1 else None
